@@ -553,14 +553,6 @@ func judge(c *hc.Ctx, pa para, res []brk, ok bool) {
 		cls = ":glue-shrink-exceeds-width"
 		c.Count("feature:glue-shrink-exceeds-width")
 	}
-	// Residual known class of the exact-fit guard: the deactivation test at a penalty with width
-	// (`lb.width < (lb.W-active.W)-(lb.Z-active.Z)`) is not guarded; when the least length of the line to
-	// such a penalty (without its width) equals the line width, rounding of the running sums deactivates
-	// the node although a later break fits exactly.
-	if cls == "" && e.penaltyExactFit(legal, tab) {
-		cls = ":penalty-width-deactivation"
-		c.Count("feature:penalty-width-exact-fit")
-	}
 	switch {
 	case bestStrict < math.Inf(1):
 		c.Count("exhaustive:feasible")
@@ -648,37 +640,6 @@ func (e *exact) nonMonotone(legal []int, tab map[[2]int]lineM) bool {
 			}
 			if m.shr <= 0 {
 				over = math.Max(over, Lf)
-			}
-			if isForced(e.pa, b) {
-				break
-			}
-		}
-	}
-	return false
-}
-
-// penaltyExactFit reports whether for some line start a and some legal penalty b with width the least
-// length of the line a→b without the penalty's width is within the margin of the line width.
-func (e *exact) penaltyExactFit(legal []int, tab map[[2]int]lineM) bool {
-	delta := 1e-9 * (1 + e.absW + math.Abs(e.pa.width))
-	starts := append([]int{-1}, legal...)
-	for _, a := range starts {
-		for _, b := range legal {
-			if b <= a {
-				continue
-			}
-			it := e.pa.items[b]
-			if it.Type == text.PenaltyType && it.Width != 0 {
-				m, ok := tab[[2]int{a, b}]
-				if !ok {
-					m = e.measure(a, b)
-					tab[[2]int{a, b}] = m
-				}
-				least := new(big.Rat).Sub(new(big.Rat).Sub(m.L, m.Z), rat(it.Width))
-				lf, _ := least.Float64()
-				if math.Abs(lf-e.pa.width) <= delta {
-					return true
-				}
 			}
 			if isForced(e.pa, b) {
 				break
